@@ -978,8 +978,10 @@ class SyncObj(object):
             elif serialized is not None:
                 if self.__serializer.setTransmissionData(serialized):
                     if self.__loadDumpFile(clearJournal=True):
-                        self.__sendNextNodeIdx(node, success=True)
-                        verifiedLogIdx = self.__getCurrentLogIndex()
+                        # what is known to match the leader's log is the snapshot's position;
+                        # entries kept behind it are verified by the append_entries that follow
+                        verifiedLogIdx = self.__raftLastApplied
+                        self.__sendNextNodeIdx(node, nextNodeIdx=verifiedLogIdx + 1, success=True)
 
             if verifiedLogIdx is not None and leaderCommitIndex > self.__raftCommitIndex:
                 self.__raftCommitIndex = max(self.__raftCommitIndex, min(leaderCommitIndex, verifiedLogIdx))
@@ -1466,15 +1468,15 @@ class SyncObj(object):
                 for i, consumer in enumerate(self.__consumers):
                     consumer._deserialize(consumersData[i])
 
-            if not clearJournal:
-                # A journal that still reaches back beyond the dump (the node stopped before it
-                # was trimmed) is trimmed to the dump's position instead of being thrown away.
-                dumpEntries = self.__getEntries(data[2][1], 2)
-                if len(dumpEntries) == 2 and dumpEntries[0] == data[2] and dumpEntries[1] == data[1]:
-                    self.__deleteEntriesTo(data[2][1])
+            # A log that holds the dump's entries keeps what follows them: the journal of a node
+            # that stopped before it was trimmed, or entries a follower stored (and acknowledged)
+            # before the leader's snapshot of an earlier position arrived.
+            dumpEntries = self.__getEntries(data[2][1], 2)
+            keptEntries = len(dumpEntries) == 2 and dumpEntries[0] == data[2] and dumpEntries[1] == data[1]
+            if keptEntries:
+                self.__deleteEntriesTo(data[2][1])
 
-            if clearJournal or \
-                    len(self.__raftLog) < 2 or \
+            if len(self.__raftLog) < 2 or \
                     self.__raftLog[0] != data[2] or \
                     self.__raftLog[1] != data[1]:
                 self.__raftLog.clear()
@@ -1486,6 +1488,12 @@ class SyncObj(object):
 
             if self.__conf.dynamicMembershipChange:
                 self.__updateClusterConfiguration([node for node in data[3] if node != self.__selfNode])
+                if clearJournal and keptEntries:
+                    # membership entries behind the snapshot's position stay in force
+                    for entry in self.__getEntries(data[1][1] + 1):
+                        request = self.__parseChangeClusterRequest(entry[0])
+                        if request is not None:
+                            self.__doChangeCluster(request)
             self.__onSetCodeVersion(self.__enabledCodeVersion)
             return True
         except:
